@@ -43,7 +43,8 @@ Ltac case_walk_gen :=
     rewrite (walkoff_gen_ext _ (n_uniaxial no ne) th)
       by (intros t; apply index_along_gen_pump_dependent; [lra | lra | first [left; split; [lra | reflexivity] | right; split; [lra | reflexivity]]])
   end;
-  rewrite walkoff_gen_unfold; cbv zeta;
+  unfold walkoff_gen, walkoff_tail_gen, walkoff_np_prime_gen, derivative_at_gen, fd_quotient_gen, fd_forward_point_gen,
+    fd_backward_point_gen, walkoff_theta_assigned_gen, walkoff_theta_at_gen; cbv zeta beta;
   unfold fd_step_gen, n_uniaxial, y_uniaxial, inv2, eps64, Rpower;
   decide_branches; interval with (i_prec 140).
 
